@@ -206,7 +206,7 @@ class ExactFitPredict(Contract):
                         e2, n2, d2 = e, nn, d
                     for kind, params in (("spline", {}), ("spline", {"mindist": scale * rng.choice([1e-3, 5e-2])}), ("knn", {}), ("linear", {"rescale": rng.random() < 0.5}), ("cubic", {"rescale": rng.random() < 0.5}), ("chain", {})):
                         yield (kind, (e2, n2), d2, params), {}
-                    yield ("vector", (e2, n2), (d2, -2 * d2 + 1), {"poisson": rng.choice([-0.5, 0.5, 1.0]), "mindist": scale * rng.choice([1e-3, 1e-1])}), {}
+                    yield ("vector", (e2, n2), (d2, -2 * d2 + 1), {"poisson": rng.choice([-1.0, -0.5, 0.5, 1.0]), "mindist": scale * rng.choice([1e-3, 1e-1])}), {}
                     yield ("vector_of", (e2, n2), (d2, d2 * 0.5), {}), {}
 
     def ensures(self, a, r):
